@@ -42,12 +42,21 @@ type c05Oracle struct {
 	panicPred map[string]bool
 	classes   map[string]bool
 	hot       bool
-	anc       []*c05JV // enclosing objects of the struct being walked, nearest first (for ",inherit")
-	canonKeys bool     // conf: keys are compared in canonical form (userName == user_name == UserName)
+	anc       []*c05JV            // enclosing objects of the struct being walked, nearest first (for ",inherit")
+	canonKeys bool                // conf: keys are compared in canonical form (userName == user_name == UserName)
+	allStr    bool                // WithStringValues(): every scalar comes as a string (as with form / path / header values)
+	keyFn     func(string) string // WithCanonicalKeyFunc: the declared key is looked up as keyFn(key)
 }
 
 func c05NewOracle() *c05Oracle {
 	return &c05Oracle{panicPred: map[string]bool{}, classes: map[string]bool{}}
+}
+
+func (o *c05Oracle) docKey(k string) string {
+	if o.keyFn != nil {
+		return o.keyFn(k)
+	}
+	return k
 }
 
 func (o *c05Oracle) class(c string)  { o.classes[c] = true }
@@ -123,6 +132,9 @@ func (o *c05Oracle) walkStruct(fs []c05Fld, obj *c05JV, val reflect.Value, path 
 	if path == "" {
 		o.scanDoc(obj)
 	}
+	if len(fs) >= 17 {
+		o.class("size:fields>=17")
+	}
 	for i := range fs {
 		f := &fs[i]
 		var fv reflect.Value
@@ -174,11 +186,11 @@ func (o *c05Oracle) walkStruct(fs []c05Fld, obj *c05JV, val reflect.Value, path 
 		if f.Env {
 			o.class("env-unset")
 		}
-		ms := obj.lookup(f.key(i))
+		ms := obj.lookup(o.docKey(f.key(i)))
 		if len(ms) == 0 && f.Inh {
 			// documented by the package's tests: the nearest enclosing object that has the key provides the value
 			for _, a := range o.anc {
-				ms = a.lookup(f.key(i))
+				ms = a.lookup(o.docKey(f.key(i)))
 				if o.canonKeys {
 					// through conf a differently spelled key of an enclosing object is the same key
 					ms = nil
@@ -293,6 +305,18 @@ func (o *c05Oracle) nullField(f *c05Fld, fv reflect.Value, p string) {
 		if fv.Len() == 0 {
 			return
 		}
+	}
+	if f.T.K == "struct" {
+		// (a typed nil map is taken for an empty object): every child as if absent
+		sv := fv
+		if sv.Kind() == reflect.Ptr {
+			sv = sv.Elem()
+		}
+		sub := c05NewOracle()
+		empty := c05Obj()
+		sub.walkStruct(f.T.F, &empty, sv, p)
+		o.bad = append(o.bad, sub.bad...)
+		return
 	}
 	if f.Def != nil && c05IsScalar(f.T.K) {
 		dv := fv
@@ -518,6 +542,12 @@ func (o *c05Oracle) value(t *c05Typ, f *c05Fld, v *c05JV, fv reflect.Value, pos 
 		if len(v.L) == 0 {
 			o.class("empty-array")
 		}
+		if len(v.L) >= 255 {
+			o.class("size:array>=255")
+		}
+		if len(v.L) >= 65535 {
+			o.class("size:array>=64K")
+		}
 		if f != nil && (len(f.Opts) > 0 || f.Rng != nil) {
 			o.unspec("constraint-on-slice")
 		}
@@ -597,7 +627,7 @@ func (o *c05Oracle) value(t *c05Typ, f *c05Fld, v *c05JV, fv reflect.Value, pos 
 
 func (o *c05Oracle) scalar(t *c05Typ, f *c05Fld, v *c05JV, fv reflect.Value, pos int, p string) {
 	k := t.K
-	str := f != nil && f.Str
+	str := f != nil && f.Str || o.allStr
 	sized := c05IsNumeric(k)
 	constrained := f != nil && (len(f.Opts) > 0 || f.Rng != nil)
 	switch k {
@@ -622,7 +652,7 @@ func (o *c05Oracle) scalar(t *c05Typ, f *c05Fld, v *c05JV, fv reflect.Value, pos
 			if constrained {
 				o.hot = true
 			}
-			if v.T == "num" && str && len(f.Opts) > 0 && pos == 0 {
+			if v.T == "num" && str && f != nil && len(f.Opts) > 0 && pos == 0 {
 				o.panicPred["stringoption-number-options-panic"] = true
 			}
 			return
@@ -646,8 +676,36 @@ func (o *c05Oracle) scalar(t *c05Typ, f *c05Fld, v *c05JV, fv reflect.Value, pos
 			o.unspec("range-on-string")
 			return
 		}
+		if len(v.S) >= 100 {
+			o.class("size:string>=100")
+		}
+		if len(v.S) >= 65535 {
+			o.class("size:string>=64K")
+		}
 		if fv.IsValid() && fv.String() != v.S {
-			o.mismatch("", "%s: document %q, field %q", p, v.S, fv.String())
+			a, b := v.S, fv.String()
+			if len(a) > 200 {
+				a = fmt.Sprintf("%s...(%d bytes)", a[:100], len(a))
+			}
+			if len(b) > 200 {
+				b = fmt.Sprintf("%s...(%d bytes)", b[:100], len(b))
+			}
+			o.mismatch("", "%s: document %q, field %q", p, a, b)
+		}
+	case "text":
+		// user callback: UnmarshalText gets the string; its error must surface
+		if pos != 0 || v.T != "str" {
+			o.unspec("illtyped-scalar")
+			return
+		}
+		o.class("callback:text-unmarshaler")
+		if strings.HasPrefix(v.S, "!") {
+			o.class("callback:returns-error")
+			o.fail("", "%s: UnmarshalText refused %q", p, v.S)
+			return
+		}
+		if fv.IsValid() && fv.Field(0).String() != v.S {
+			o.mismatch("", "%s: document %q, UnmarshalText stored %q", p, v.S, fv.Field(0).String())
 		}
 	case "dur":
 		if pos != 0 {
@@ -687,7 +745,7 @@ func (o *c05Oracle) scalar(t *c05Typ, f *c05Fld, v *c05JV, fv reflect.Value, pos
 			}
 			if str {
 				o.notPlain = true // a bare number for a ",string" field: accepted by the code, not demanded
-				if len(f.Opts) > 0 && pos == 0 {
+				if f != nil && len(f.Opts) > 0 && pos == 0 {
 					o.panicPred["stringoption-number-options-panic"] = true
 				}
 			}
